@@ -3,6 +3,7 @@ package core
 import (
 	_ "embed"
 	"encoding/json"
+	"fmt"
 	"go/types"
 	"sort"
 	"strings"
@@ -20,6 +21,7 @@ var anchorsRefJSON []byte
 
 type renameInfo struct {
 	canon map[*ssa.Function]string // current function -> reference name
+	field map[*types.Var]string    // current struct field -> reference name
 	byKey map[string]*ssa.Function // "rel|recv|refname" -> current function
 	notes []string
 }
@@ -47,8 +49,57 @@ func fnKey(fn *ssa.Function) (rel, recv, name, sig string, ok bool) {
 		}
 	}
 	name = fn.Name()
-	sig = types.TypeString(types.NewSignatureType(nil, nil, nil, fn.Signature.Params(), fn.Signature.Results(), fn.Signature.Variadic()), nil)
+	sig = sigString(fn.Signature)
 	return rel, recv, name, sig, true
+}
+
+// sigString renders parameter and result *types* only: renaming a parameter is not a signature change.
+func sigString(s *types.Signature) string {
+	tup := func(t *types.Tuple) string {
+		var parts []string
+		for i := 0; i < t.Len(); i++ {
+			parts = append(parts, types.TypeString(t.At(i).Type(), nil))
+		}
+		return "(" + strings.Join(parts, ", ") + ")"
+	}
+	v := ""
+	if s.Variadic() {
+		v = "..."
+	}
+	return "func" + v + tup(s.Params()) + " " + tup(s.Results())
+}
+
+// structFields lists "rel|T|#field" -> (type string, field object) for the named struct types of the library packages.
+func (p *Program) structFields() (map[string]string, map[string]*types.Var) {
+	sigs := map[string]string{}
+	objs := map[string]*types.Var{}
+	for _, pk := range p.Pkgs {
+		if !IsLibraryPkg(pk.PkgPath) {
+			continue
+		}
+		rel := strings.TrimPrefix(strings.TrimPrefix(pk.PkgPath, ModulePath), "/")
+		sc := pk.Types.Scope()
+		for _, n := range sc.Names() {
+			tn, ok := sc.Lookup(n).(*types.TypeName)
+			if !ok || tn.IsAlias() {
+				continue
+			}
+			st, ok := tn.Type().Underlying().(*types.Struct)
+			if !ok {
+				continue
+			}
+			if strings.HasSuffix(p.Fset.Position(tn.Pos()).Filename, "_test.go") {
+				continue
+			}
+			for i := 0; i < st.NumFields(); i++ {
+				f := st.Field(i)
+				k := rel + "|" + n + "|#" + f.Name()
+				sigs[k] = fmt.Sprintf("%d:%s", i, types.TypeString(f.Type(), nil))
+				objs[k] = f
+			}
+		}
+	}
+	return sigs, objs
 }
 
 // AnchorsOf lists "rel|recv|name" -> signature for the program (used to regenerate anchors_ref.json).
@@ -63,6 +114,10 @@ func (p *Program) AnchorsOf() map[string]string {
 			out[rel+"|"+recv+"|"+name] = sig
 		}
 	}
+	fs, _ := p.structFields()
+	for k, v := range fs {
+		out[k] = v
+	}
 	return out
 }
 
@@ -70,7 +125,7 @@ func (p *Program) renames() *renameInfo {
 	if p.ren != nil {
 		return p.ren
 	}
-	ri := &renameInfo{canon: map[*ssa.Function]string{}, byKey: map[string]*ssa.Function{}}
+	ri := &renameInfo{canon: map[*ssa.Function]string{}, byKey: map[string]*ssa.Function{}, field: map[*types.Var]string{}}
 	p.ren = ri
 	ref := map[string]string{}
 	if json.Unmarshal(anchorsRefJSON, &ref) != nil || len(ref) == 0 {
@@ -99,8 +154,24 @@ func (p *Program) renames() *renameInfo {
 		}
 		return groups[pre]
 	}
+	fsig, fobj := p.structFields()
+	for k, v := range fsig {
+		curSig[k] = v
+	}
+	has := func(k string) bool {
+		if _, ok := cur[k]; ok {
+			return true
+		}
+		_, ok := fobj[k]
+		return ok
+	}
+	for k := range fsig {
+		if _, ok := ref[k]; !ok {
+			g(k).extra = append(g(k).extra, k)
+		}
+	}
 	for k := range ref {
-		if _, ok := cur[k]; !ok {
+		if !has(k) {
 			g(k).missing = append(g(k).missing, k)
 		}
 	}
@@ -132,8 +203,16 @@ func (p *Program) renames() *renameInfo {
 			if n != 1 {
 				continue
 			}
-			fn := cur[cands[0]]
 			refName := m[strings.LastIndex(m, "|")+1:]
+			if strings.HasPrefix(refName, "#") != strings.HasPrefix(cands[0][strings.LastIndex(cands[0], "|")+1:], "#") {
+				continue
+			}
+			if strings.HasPrefix(refName, "#") {
+				ri.field[fobj[cands[0]]] = refName[1:]
+				ri.notes = append(ri.notes, cands[0]+" is treated as the renamed field "+m)
+				continue
+			}
+			fn := cur[cands[0]]
 			ri.canon[fn] = refName
 			ri.byKey[m] = fn
 			ri.notes = append(ri.notes, cands[0]+" is treated as the renamed "+m)
@@ -157,3 +236,23 @@ func (p *Program) CanonName(fn *ssa.Function) string {
 
 // RenameNotes lists the renames that were recognised on this run (reported in the evidence).
 func (p *Program) RenameNotes() []string { return p.renames().notes }
+
+// CanonFieldName is CanonName for struct fields.
+func (p *Program) CanonFieldName(f *types.Var) string {
+	if p != nil {
+		if n, ok := p.renames().field[f]; ok {
+			return n
+		}
+	}
+	return f.Name()
+}
+
+// FieldByCanonName finds the field of st the rules know under name.
+func (p *Program) FieldByCanonName(st *types.Struct, name string) (int, *types.Var) {
+	for i := 0; i < st.NumFields(); i++ {
+		if p.CanonFieldName(st.Field(i)) == name {
+			return i, st.Field(i)
+		}
+	}
+	return -1, nil
+}
